@@ -205,6 +205,13 @@ class C08(Check):
         if obs["unfiltered"][0] != mu:
             fails.append(Failure("tie", "unfiltered-minimum", "best makespan over all histories: implementation vs "
                                  "model", expected=mu, observed=obs["unfiltered"][0]))
+        # the two decision trees have the model's shape: complete histories, nodes, dead ends (the filter lets the
+        # same operations through in every state of every filtered history)
+        for name, k in (("filtered", 2), ("unfiltered", 3)):
+            if len(search) > k and list(obs[name][1:4]) != list(search[k]):
+                fails.append(Failure("tie", name + "-tree-size",
+                                     f"[leaves, nodes, dead ends] of the {name} decision tree: implementation vs model",
+                                     expected=search[k], observed=obs[name][1:4]))
         opt = obs["unfiltered"][0]
         ob = optbf[0] if isinstance(optbf, list) and optbf else None
         if isinstance(ob, list):
